@@ -1,7 +1,9 @@
 // C14: coin supply is conserved and balance records stay well-formed.
 //
-// Real gno.land app (engine chainx). Every history of <=2 (quick) / <=3 (thorough) transactions over a menu of
-// 13 (15) operations — bank sends of the account-tier denom (ugnot), of a split-tier denom (atom: partial, whole
+// Real gno.land app (engine chainx). Two parts.
+//
+// (1) Histories. Every history of <=2 (quick) / <=3 (thorough) transactions over a menu of
+// 13 (16) operations — bank sends of the account-tier denom (ugnot), of a split-tier denom (atom: partial, whole
 // balance, to a brand-new address), of several denoms at once, of a realm-issued denom; realm coin mint / burn /
 // mint-to-new-address / mint-then-panic / mint at the int64 supply cap / mint of a foreign denom through the
 // banker of a purpose-built realm; storage-deposit lock and refund; coins attached to a call; realm pay-out; a
@@ -16,13 +18,19 @@
 //       tx outcome and every balance, and the supply per denom — so supply moves only by the explicit mint/burn
 //       amounts of successful txs. The only number taken from the implementation is the size of a storage deposit
 //       lock/refund (sign-constrained, moved between the caller and the realm's deposit address only).
+//
+// (2) Message phase (msgphase.go, runs first): single messages over a small alphabet of addresses (repeated and
+// overlapping across inputs and outputs), denoms and boundary amounts — multi-sends, sends incl. self-sends, realm
+// banker calls — delivered like baseapp delivers the messages of a tx, with the same three oracles.
 package main
 
 import (
 	"encoding/binary"
 	"fmt"
 	"math"
+	"os"
 	"runtime/debug"
+	"runtime/pprof"
 	"sort"
 	"strings"
 	"sync"
@@ -330,6 +338,12 @@ func scan(st store.Store, prefix string, f func(k, v []byte)) {
 
 // readRaw decodes /a/, /b/ and /supply/ with its own code (no keeper accessor).
 func readRaw(main store.Store) *rawState {
+	return decodeRecords(func(prefix string, f func(k, v []byte)) { scan(main, prefix, f) })
+}
+
+// decodeRecords is the decoder behind readRaw; scan yields the records under a prefix in key order (from a store,
+// or — message phase — from the records of a pre-state overlaid with the writes of one delivery).
+func decodeRecords(scanRecs func(prefix string, f func(k, v []byte))) *rawState {
 	s := &rawState{bal: map[crypto.Address]map[string]int64{}, recorded: map[string]int64{}}
 	bad := func(f string, a ...any) { s.problems = append(s.problems, fmt.Sprintf(f, a...)) }
 	put := func(a crypto.Address, d string, n int64) {
@@ -342,7 +356,7 @@ func readRaw(main store.Store) *rawState {
 		s.bal[a][d] += n
 	}
 	hasAcc := map[crypto.Address]bool{}
-	scan(main, "/a/", func(k, v []byte) {
+	scanRecs("/a/", func(k, v []byte) {
 		if len(k) != 3+crypto.AddressSize {
 			return // session sub-keys hold no coins (C16's subject)
 		}
@@ -372,7 +386,7 @@ func readRaw(main store.Store) *rawState {
 			put(addr, c.Denom, c.Amount)
 		}
 	})
-	scan(main, "/b/", func(k, v []byte) {
+	scanRecs("/b/", func(k, v []byte) {
 		if len(k) <= 3+crypto.AddressSize {
 			bad("malformed balance key %x", k)
 			return
@@ -400,7 +414,7 @@ func readRaw(main store.Store) *rawState {
 		}
 		put(addr, denom, int64(u))
 	})
-	scan(main, "/supply/", func(k, v []byte) {
+	scanRecs("/supply/", func(k, v []byte) {
 		denom := string(k[len("/supply/"):])
 		if len(v) != 8 {
 			bad("supply record %q: value of %d bytes", denom, len(v))
@@ -674,13 +688,28 @@ func histories(n, depth int) [][]int {
 func main() {
 	debug.SetGCPercent(400)
 	r = vk.New("model_checking")
-	r.SetBudget(150*time.Second, 25*time.Minute)
+	r.SetBudget(240*time.Second, 30*time.Minute) // soft; a quiet 16-core machine needs a fraction of it
 	ops := menu()
 	depth := 2
 	if r.Thorough() {
 		depth = 3
 	}
 	newRun() // first chain: loads and caches the stdlibs
+	// message phase first (small, and the part that needs no deep history); its share of the budget is soft
+	if pf := os.Getenv("VERIF_C14_PROFILE"); pf != "" {
+		f, _ := os.Create(pf)
+		pprof.StartCPUProfile(f)
+		defer pprof.StopCPUProfile()
+	}
+	msgDone := messagePhase()
+	if os.Getenv("VERIF_C14_PROFILE") != "" {
+		pprof.StopCPUProfile()
+	}
+	if os.Getenv("VERIF_C14_ONLY_MSG") != "" {
+		fmt.Println(strings.Join(shapeCounts, "\n"))
+		fmt.Printf("message phase: jobs=%d deliveries=%d filtered=%d full-checks=%d done=%v\n", mJobs, mExec.Load(), mFiltered.Load(), mFull.Load(), msgDone)
+		r.Finish("message phase only (debug)", false, map[string]any{"states": nStates.Load(), "transitions": mExec.Load(), "traces_validated_against_impl": mExec.Load()})
+	}
 	hs := histories(len(ops), depth)
 	var done atomic.Int64
 	r.ParFor(len(hs), func(i int) {
@@ -704,20 +733,31 @@ func main() {
 		}
 		done.Add(1)
 	})
-	exhaustive := int(done.Load()) == len(hs) || r.Violations() > 0
+	exhaustive := (int(done.Load()) == len(hs) && msgDone) || r.Violations() > 0
 	if !exhaustive {
 		r.MarkCapped()
 	}
 	r.Sample(map[string]any{"history": "[mint(tok,500>A) ; burn(tok,500<A)]", "meaning": "supply record of the realm denom is created, then deleted at zero; the balance key too"})
 	r.Sample(map[string]any{"history": "[send-atom-all(A>N1,1000) ; send-mixed(A>C,…)]", "meaning": "whole split-tier balance to a brand-new address (key deleted at the sender, account created for the receiver), then a multi-denom send that must fail atomically"})
 	r.Sample(map[string]any{"history": "[mint-at-cap(big,MaxInt64-5>A) ; mint-at-cap(big,MaxInt64-5>A)]", "meaning": "second mint would push the supply past int64: must fail and leave supply and balances untouched"})
+	r.Sample(map[string]any{"message": "S1:multisend[A:2tok B:1ugnot > A:1tok N1:1tok B:1ugnot]", "meaning": "message phase: A is input and change output of the same denom, B gets its own input back, N1 (no account) is created by a split-tier credit"})
+	r.Sample(map[string]any{"message": "S1:multisend[A:1tok > A:3tok B:MAXtok N1:MAXtok]", "meaning": "message phase: outputs sum to 2^64+1, congruent to the input modulo 2^64: the real ValidateBasic must refuse it (it does: Coins.Add overflow panic), otherwise it is delivered and the ledger oracle decides"})
+	r.Sample(map[string]any{"message": "S2:multisend[A:MAXtok > B:MAX-2tok N1:1tok A:1tok]", "meaning": "message phase, supply exactly MaxInt64 held by A: a legitimate transfer of amounts next to MaxInt64"})
+	enc := "amino.Marshal of a std.Tx carrying a bank.MsgMultiSend fails (measured at every run: the type is not registered in tm2/pkg/sdk/bank/package.go), so a multi-send cannot travel in a transaction on the real app"
+	if multiSendEncodable {
+		enc = "bank.MsgMultiSend IS amino-encodable in this tree (measured): it can travel in a transaction; the harness still delivers it at message level only"
+	}
 	r.Assumptions = []string{
-		"MsgMultiSend is not amino-registered in tm2/pkg/sdk/bank/package.go, so it cannot travel in a transaction: multi-sends are not reachable on the real app and are not enumerated; a multi-message tx stands in",
+		enc + "; multi-sends are therefore delivered at message level through BaseApp.VerifRunMsgs (hooks/c14), which runs the app's own validateBasicTxMsgs, cacheTxContext and runMsgs (real router and bank handler) on the block's deliver state and writes the cache layer back only on success, like runTx after the ante handler (no signature, no fee, the VM's begin/end-tx hooks skipped for bank-only messages)",
+		"message phase: messages refused by the real MsgMultiSend.ValidateBasic are counted and not delivered (ValidateBasic is a pure function of the message and baseapp runs it before any state access); addresses do not enter ValidateBasic",
+		"message phase, quick tier: shapes 2x2 and 2x3 use reduced coin menus, inputs from {A,B} only and pre-state S1 only (see coverage.message_phase.shapes); the thorough tier lifts the address restriction and widens the menus",
 		"vesting accounts cannot be created by any transaction or by chainx's genesis balances: not enumerated",
 		"the invariants are evaluated through keepers the harness constructs on the app's store key with the same account-tier allowlist {ugnot} that gnoland.NewAppWithOptions compiles in",
 		"the amount of a storage-deposit lock/refund is read from the chain (only its sign, its two parties and its denom are checked)",
 	}
-	r.Finish(fmt.Sprintf("every history of exactly %d txs (all prefixes checked on the way) over a %d-operation menu, one fresh chain per history, two txs per block; invariants + independent re-sum + reference ledger after every tx and every commit; distinct = distinct history prefixes", depth, len(ops)),
-		true, map[string]any{"states": nStates.Load(), "transitions": nTx.Load(), "traces_validated_against_impl": nTx.Load(), "chains_built": nChains.Load(),
-			"invariant_evaluations": nInv.Load(), "depth": depth, "menu": len(ops), "histories": len(hs)})
+	r.Finish(fmt.Sprintf("(1) every history of exactly %d txs (all prefixes checked on the way) over a %d-operation menu, one fresh chain per history, two txs per block; invariants + independent re-sum + reference ledger after every tx and every commit. (2) message phase: every MsgMultiSend of the listed shapes over the coins menu that the real ValidateBasic accepts x every assignment of {A,B,N} to its entries, every MsgSend over {A,B,N,zero}^2 x the coins menu (message level; from A also as signed txs), a realm-banker boundary menu as signed txs — each delivered from pre-states S1/S2 on the real app and rolled back; reference ledger + no-write-on-refusal + independent decode of pre-state records overlaid with the delivery's writes; repo invariants + full store decode on every distinct post-state. distinct = distinct history prefixes + distinct delivered messages", depth, len(ops)),
+		true, map[string]any{"states": nStates.Load(), "transitions": nTx.Load() + mMsgLevel(), "traces_validated_against_impl": nTx.Load() + mMsgLevel(), "chains_built": nChains.Load(),
+			"invariant_evaluations": nInv.Load(), "depth": depth, "menu": len(ops), "histories": len(hs),
+			"message_phase": map[string]any{"deliveries": mExec.Load(), "coin_tuples_enumerated": mTuples.Load(), "refused_by_ValidateBasic_not_delivered": mFiltered.Load(),
+				"distinct_post_states_fully_checked": mFull.Load(), "jobs": mJobs, "completed": msgDone, "shapes": shapeCounts, "pre_states": preStateDesc}})
 }
